@@ -33,18 +33,18 @@ LEVEL = "exploration"
 BUDGET = {"quick": 45, "thorough": 900}
 RULE = (
     "One run = one (aggregation, multiset, split): the members of one group (values from {-2,-1,0,1,2,0.5,NaN,+inf,-inf}; "
-    "integers without the last three) are split into 1-3 ordered blocks where a block may hold no member of the group "
-    "(only a second group, or only missing labels) or only NaN for it; every registry aggregation with a block stage and "
+    "integers without the last three) are split into 1-4 ordered blocks where a block may hold no member of the group "
+    "(only a second group, or only missing labels) or only NaN for it (up to 4 blocks; split_every 2, 3 or 4: pairwise merges over two levels as well as 3-4 partial results merged at once); every registry aggregation with a block stage and "
     "7 user-defined Aggregation objects built from the public constructor (callable block functions, a callable combine, finalize with finalize_kwargs, two "
     "intermediates with distinct fills, a dtypes tuple, a closure that must survive deepcopy and cloudpickle) under map-reduce (reindex "
-    "at block or combine stage) and cohorts with split_every=2 (three blocks -> two-level tree), executed on the "
+    "at block or combine stage) and cohorts, executed on the "
     "simulated cluster with faults on (the aggregation object is shipped inside every task). Oracle: NumPy on the unsplit "
     "members (equal_nan; arg* only on NaN-free groups, nan* order/extreme reductions only when a valid member exists). "
     "Non-trivial iff >=2 blocks. distinct_nontrivial = distinct (aggregation, method, reindex, dtype kind, split "
     "pattern = per block present/absent/NaN-only, special values present) cells."
 )
 ASSUMPTIONS = ["sampled, not enumerated", "NumPy is the value oracle"]
-PROBES = ["block_group_absent", "block_group_nan_only", "has_inf", "has_nan", "three_blocks_two_levels", "custom_aggregation",
+PROBES = ["block_group_absent", "block_group_nan_only", "has_inf", "has_nan", "three_blocks_two_levels", "three_or_more_merged_at_once", "custom_aggregation",
           "custom_closure_pickled", "second_group", "cohorts"]
 
 FLOAT_ALPHA = [-2.0, -1.0, 0.0, 1.0, 2.0, 0.5, math.nan, math.nan, math.inf, -math.inf]
@@ -63,7 +63,7 @@ def gen(tape: Tape, tier: str) -> dict:
     if fname in BOOL:
         dtype = "b1"
     dt = np.dtype(dtype)
-    nblocks = tape.randint("gen.nblocks", 1, 3)
+    nblocks = tape.randint("gen.nblocks", 1, 4)
     nmem = tape.randint("gen.nmem", 1, 6)
     alpha = FLOAT_ALPHA if dt.kind == "f" else (INT_ALPHA if dt.kind == "i" else [False, True])
     if fname in ("prod", "nanprod") and dt.kind == "f":
@@ -107,7 +107,7 @@ def gen(tape: Tape, tier: str) -> dict:
     if reindex is not None:
         kwargs["reindex"] = reindex
     knobs = swarm_knobs(tape, nblocks, fault_free_p=0.2)
-    knobs["split_every"] = 2
+    knobs["split_every"] = tape.choice("gen.split_every", [2, 2, 3, 4])  # pairwise merges and 3-4 partials merged at once
     return {
         "kind": "reduce",
         "array": enc_array(np.array(vals, dtype=dt)),
@@ -151,12 +151,14 @@ def run(case, tape: Tape, ctx):
     has_inf = any(isinstance(v, float) and math.isinf(v) for v in vals_all)
     has_nan = any(isinstance(v, float) and v != v for v in vals_all)
     ctx.nontrivial = nb >= 2
-    ctx.cell(fname, plan.get("method"), plan.get("reindex"), arr.dtype.kind, pattern, int(has_inf), int(has_nan))
+    se = case["knobs"].get("split_every") or 2
+    ctx.cell(fname, plan.get("method"), plan.get("reindex"), arr.dtype.kind, pattern, int(has_inf), int(has_nan), min(se, nb))
     ctx.probe("block_group_absent", "absent" in pattern)
     ctx.probe("block_group_nan_only", "nanonly" in pattern)
     ctx.probe("has_inf", has_inf)
     ctx.probe("has_nan", has_nan)
-    ctx.probe("three_blocks_two_levels", nb == 3)
+    ctx.probe("three_blocks_two_levels", nb >= 3 and se == 2)
+    ctx.probe("three_or_more_merged_at_once", nb >= 3 and se >= 3)
     ctx.probe("custom_aggregation", custom)
     ctx.probe("custom_closure_pickled", fname == "scaled" and info.stats.get("ser_task", 0) > 0)
     ctx.probe("second_group", case["meta"]["ngroups"] == 2)
@@ -193,7 +195,7 @@ def run(case, tape: Tape, ctx):
                 "value",
                 f"{fname} of group {g} split as {pattern} over chunks {case['chunks'][0]}: merged partial results give "
                 f"{got!r}, reducing all members {vals.tolist()} at once gives {want!r} "
-                f"(plan {plan.get('method')}, reindex={plan.get('reindex')}, split_every=2)",
+                f"(plan {plan.get('method')}, reindex={plan.get('reindex')}, split_every={case['knobs'].get('split_every')})",
                 resolved_method=plan.get("method"), fname=fname, pattern=pattern)
         ctx.count("groups_checked")
 
